@@ -1,6 +1,6 @@
 (* Executable model of epgpy.statematrix.ArrayCollection as a state machine
    (statematrix.py, class ArrayCollection), faithful to the code as written:
-   order-dependent caches (_shape, _shapes, _axes, _default), check_shape's slice,
+   order-dependent caches (_shape, _shapes, _axes, _default), check_shape,
    the in-place branch of update, the stale axes cache after pop, one linked child.
    Names of arrays and of named axes are natural numbers.
    Domain restriction of the model (returns EUnsupported): arrays with fewer
@@ -112,8 +112,8 @@ Definition check_named (axes : list (nat * nat)) (sh : list nat) (l : layout) : 
      | _ => true
      end) (seq 0 (length l)).
 Definition check_common (c : coll) (sh : list nat) (l : layout) : bool :=
-  let common := slice (ell_index l) (length sh + 1 - length l) sh in
-  forallb2 dim_ok (fit (c_app c) (length (c_shape c)) common) (c_shape c).
+  (* common = shape[axis : len(shape) - (len(layout) - axis - 1)]  (the broadcast part) *)
+  forallb2 dim_ok (fit (c_app c) (length (c_shape c)) (shared_axes sh l)) (c_shape c).
 Definition check_shape (c : coll) (sh : list nat) (l : layout) (ign : option nat) : bool :=
   check_named (gna (c_arrays c) ign) sh l && check_common c sh l.
 
@@ -173,15 +173,12 @@ Definition update (c : coll) (name : nat) (v : nd) (rsz : bool) : res (coll * bo
   match lookup name (c_arrays c) with
   | None => Err EKey
   | Some e =>
-      match shp (e_arr e) with
-      | [] => Err EIndex
-      | _ =>
-          match assign_to v (shp (e_arr e)) with
-          | Some d => Ok (mkC (c_app c) (set_data name d (c_arrays c)) (c_shapes c) (c_axes c)
-                              (c_default c) (c_shape c), false)
-          | None => match set c name v None rsz false with
-                    | Ok c' => Ok (c', true) | Err x => Err x end
-          end
+      (* self._arrays[name][...] = array *)
+      match assign_to v (shp (e_arr e)) with
+      | Some d => Ok (mkC (c_app c) (set_data name d (c_arrays c)) (c_shapes c) (c_axes c)
+                          (c_default c) (c_shape c), false)
+      | None => match set c name v None rsz false with
+                | Ok c' => Ok (c', true) | Err x => Err x end
       end
   end.
 
